@@ -32,6 +32,13 @@ func VerifMsgCounters() (news, releases uint64) {
 
 func verifNewMsg() *Msg {
 	m := msgPool.Get().(*Msg)
+	// ReleaseMsg left the message empty; whatever it holds now was written
+	// while it sat in the pool, by somebody who no longer owned it.
+	if old := m.verifState.s.Load(); old == verifMsgReleased &&
+		(m.Header != Header{} || len(m.Questions)+len(m.Answers)+len(m.Authorities)+len(m.Additionals) != 0) {
+		verifhook.Report("write-after-release", "dnsmsg.Msg was written after ReleaseMsg (header or sections not empty when taken from the pool)")
+		m.Header = Header{}
+	}
 	m.verifState.s.Store(verifMsgOwned)
 	verifMsgNews.Add(1)
 	return m
